@@ -32,6 +32,16 @@ CLAIMED = {
             "rejected/anonymous requests leave the GET response unchanged and send nothing, every change of the list is "
             "followed by exactly one notification whose payload equals the GET response in order.",
             "Same stubs as C12; observations only through on_api_command / on_api_get / send_plugin_message; R<=2 quick / 3 thorough."),
+    "C02": ("DESIGN.md 9/C02",
+            TECH + "bounded symbolic runs (BSR) of the real handler/state/retraction objects on programs with concrete skeleton and symbolic numbers",
+            "Bounded symbolic model checking: after the real G28 prologue, every program of K commands over six shape alphabets "
+            "(moves incl. repeated/valueless/leading-dot/signed words, retraction cycles, frame changes, other codes, arcs, G92 "
+            "re-basing) with all numbers and up to R region geometries as solver variables is run through the real "
+            "GcodeHandlers.handleGcode; under the assumption (stated before each command) that its destination is outside every "
+            "region -- or exclusion disabled -- z3 shows the result is always 'unchanged' or the identical one-element list.",
+            "Floats as reals; planArc/computeArcCenterOffsets stubbed by arbitrary sample points / centre offsets (C16's subject); "
+            "K=2 (3 for retraction alphabet) quick, K=3/4 thorough; R=1 quick, 2 thorough; M206 and relative-mode arcs outside; "
+            "programs with G92 X/Y/Z are assumed away while known finding KF-G92-xyz-offset is open."),
 }
 
 NOT_YET = {}
